@@ -12,11 +12,12 @@ type syncState struct {
 	locked  map[*value]bool
 	readers map[*value]int
 	wg      map[*value]int64
+	avals   map[*value]value
 }
 
 func (i *interpreter) sync() *syncState {
 	if i.syncSt == nil {
-		i.syncSt = &syncState{locked: map[*value]bool{}, readers: map[*value]int{}, wg: map[*value]int64{}}
+		i.syncSt = &syncState{locked: map[*value]bool{}, readers: map[*value]int{}, wg: map[*value]int64{}, avals: map[*value]value{}}
 	}
 	return i.syncSt
 }
@@ -87,6 +88,43 @@ func registerSyncStubs() {
 		return fr.i.conc.syncOp(fr, "WaitGroup.Add", a[0].(*value), []value{int(-1)}), true
 	}
 
+	// atomic.Value: contents kept in a side table keyed by the Value's address
+	externals["(*sync/atomic.Value).Load"] = func(fr *frame, a []value) (value, bool) {
+		v, ok := fr.i.sync().avals[a[0].(*value)]
+		if !ok {
+			return iface{}, true
+		}
+		return v, true
+	}
+	externals["(*sync/atomic.Value).Store"] = func(fr *frame, a []value) (value, bool) {
+		if a[1].(iface).t == nil {
+			panic(targetPanic{"sync/atomic: store of nil value into Value"})
+		}
+		fr.i.sync().avals[a[0].(*value)] = a[1]
+		return nil, true
+	}
+	externals["(*sync/atomic.Value).Swap"] = func(fr *frame, a []value) (value, bool) {
+		st := fr.i.sync()
+		old, ok := st.avals[a[0].(*value)]
+		st.avals[a[0].(*value)] = a[1]
+		if !ok {
+			return iface{}, true
+		}
+		return old, true
+	}
+	externals["(*sync/atomic.Value).CompareAndSwap"] = func(fr *frame, a []value) (value, bool) {
+		st := fr.i.sync()
+		cur, ok := st.avals[a[0].(*value)]
+		var curV value = iface{}
+		if ok {
+			curV = cur
+		}
+		if fr.i.truth(eqValue(fr.i, nil, curV, a[1])) {
+			st.avals[a[0].(*value)] = a[2]
+			return true, true
+		}
+		return false, true
+	}
 	// atomics
 	for _, ty := range []string{"Int32", "Int64", "Uint32", "Uint64", "Uintptr", "Pointer"} {
 		ty := ty
